@@ -34,11 +34,17 @@ def time_function_spellings(dialect: str) -> list[tuple[str, str]]:
     d = Dialect.get_or_raise(dialect or None)
     out = []
     targets = (exp.StrToTime, exp.TimeToStr, exp.StrToDate, exp.StrToUnix, exp.TsOrDsToDate)
-    probe_fmt = "%Y"
+    # a spelling is native when its builder converts the format through TIME_MAPPING: probe with a key
+    # whose mapped value differs from the key itself
+    probe = next((k for k in sorted(d.TIME_MAPPING) if d.TIME_MAPPING[k] != k and "'" not in k), None)
+    if probe is None:
+        return out
+    q = d.tokenizer_class.QUOTES[0]
+    q = q if isinstance(q, str) else q[0]
     for name in sorted(d.parser_class.FUNCTIONS):
         if not name.replace("_", "").isalnum():
             continue
-        sql = f"SELECT {name}(a, '{probe_fmt}')"
+        sql = f"SELECT {name}(a, {q}{probe}{q})"
         try:
             tree = d.parse(sql)[0]
         except Exception:
@@ -46,7 +52,8 @@ def time_function_spellings(dialect: str) -> list[tuple[str, str]]:
         if tree is None:
             continue
         node = tree.find(*targets)
-        if node is not None and isinstance(node.args.get("format"), exp.Literal):
+        if node is not None and isinstance(node.args.get("format"), exp.Literal) \
+                and node.args["format"].this == d.TIME_MAPPING[probe]:
             out.append((f"timefn.{name.lower()}", name))
     return out
 
@@ -159,11 +166,24 @@ def core_grammar(dialect: str = "", comments: bool = False, time_formats: bool =
     expr.append(A("cast.try", 1, "TRY_CAST({expr} AS INT)"))
     expr.append(A("cast.dcolon", 1, "{expr}::INT"))
     expr.append(A("cast.array", 1, "CAST({expr} AS ARRAY<INT>)"))
+    # generic function names take portable python-style formats; native spellings take this dialect's
+    # own directives (every TIME_MAPPING key alone plus two combinations) - both are free leaf menus, so
+    # each time function meets each directive at k=1
+    native_fns = time_function_spellings(dialect) if dialect else []
     if time_formats:
         for tag, fn in [("timefn.str_to_time", "STR_TO_TIME"), ("timefn.time_to_str", "TIME_TO_STR"),
-                        ("timefn.str_to_date", "STR_TO_DATE")] + (time_function_spellings(dialect) if dialect else []):
-            expr.append(A(tag, 1, fn + "({expr}, {timefmt})"))
-    timefmt = [A(f"tfmt.{i}", 0 if i == 0 else 1, s(f)) for i, f in enumerate(TIME_FORMATS)]
+                        ("timefn.str_to_date", "STR_TO_DATE")]:
+            if not any(fn == n for _, n in native_fns):
+                expr.append(A(tag, 1, fn + "({expr}, {timefmt})"))
+        for tag, fn in native_fns:
+            expr.append(A(tag, 1, fn + "({expr}, {ntimefmt})"))
+    py = ["%Y", "%m", "%d", "%H", "%M", "%S", "%f", "%j", "%y", "%b", "%B", "%a", "%p", "%I", "%z", "%%"]
+    timefmt = [A(f"tfmt.{i}", 0, s(f)) for i, f in enumerate(list(TIME_FORMATS) + ([] if dialect else py))]
+    native = [k for k in sorted(d.TIME_MAPPING) if q not in k] if dialect else []
+    nf = list(native)
+    if len(native) >= 3:
+        nf += [f"{native[0]}-{native[1]}", f"{native[2]}{native[0]}"]
+    ntimefmt = [A(f"ntfmt.{i}", 0, s(f)) for i, f in enumerate(dict.fromkeys(nf or TIME_FORMATS))]
 
     proj = [
         A("proj.expr", 0, "{expr}"),
@@ -262,7 +282,7 @@ def core_grammar(dialect: str = "", comments: bool = False, time_formats: bool =
         A("ddl.truncate", 1, "TRUNCATE TABLE t"),
     ]
     rules = {
-        "expr": expr, "timefmt": timefmt, "proj": proj, "distinct": distinct, "from": frm, "where": where,
+        "expr": expr, "timefmt": timefmt, "ntimefmt": ntimefmt, "proj": proj, "distinct": distinct, "from": frm, "where": where,
         "group": group, "qualify": qualify, "window": window, "order": order, "limit": limit, "select": select,
         "query": query, "stmt": stmt,
     }
